@@ -20,7 +20,10 @@ open H2V.Spec.Wire
 def probe : List Nat := [0xc0, 9, 0xc0, 9, 0xc0, 9, 0xc0, 9]
 
 def expect (w : WSt) (cls : String) (sid : Nat) : WSt :=
-  { w with c09 := some (cls, sid), c09Goaway := false, c09Rst := false, c09Pong := false }
+  { w with c09 := some (cls, sid), c09Goaway := false, c09GoawayEarly := false, c09Rst := false, c09Pong := false }
+
+/-- the probe PING is about to be sent: what was the reaction to the injected frame alone? -/
+def atProbe (w : WSt) : WSt := { w with c09GoawayEarly := w.c09Goaway }
 
 /-- what we wrote after the injection -/
 def observe (w : WSt) (f : Fr) : WSt :=
@@ -39,7 +42,10 @@ def verdict (w : WSt) : WSt × List Viol :=
   | some (cls, _) =>
     let vs : List Viol :=
       if cls == "conn" then
-        (if w.c09Goaway then [] else ["C09 connection-error-not-raised"])
+        (if w.c09GoawayEarly then [] else ["C09 connection-error-not-raised"])
+      else if cls == "connflood" then
+        -- a flood that the configured limits are there to cut off: also a matter of bounded state (C18)
+        (if w.c09GoawayEarly then [] else ["C09 connection-error-not-raised", "C18 flood-accommodated-instead-of-cut-off"])
       else if cls == "stream" || cls == "streamorconn" then
         (if w.c09Rst || w.c09Goaway then [] else ["C09 stream-error-not-raised"])
       else if cls == "tolerate" then
